@@ -15,6 +15,11 @@ GenPeers21 == << [kind |-> "p2p", locals |-> <<0, 1>>, delay |-> 0, host |-> 0],
 GenPeers3 == << [kind |-> "p2p", locals |-> <<0>>, delay |-> 0, host |-> 0],
                 [kind |-> "p2p", locals |-> <<1>>, delay |-> 0, host |-> 0],
                 [kind |-> "p2p", locals |-> <<2>>, delay |-> 0, host |-> 0] >>
+GenPeers1s == << [kind |-> "p2p", locals |-> <<0>>, delay |-> 0, host |-> 0],
+                 [kind |-> "spec", locals |-> <<>>, delay |-> 0, host |-> 0] >>
+GenPeers2s == << [kind |-> "p2p", locals |-> <<0>>, delay |-> 0, host |-> 0],
+                 [kind |-> "p2p", locals |-> <<1>>, delay |-> 0, host |-> 0],
+                 [kind |-> "spec", locals |-> <<>>, delay |-> 0, host |-> 1] >>
 GenValues == {0, 1}
 NoClock == {}
 
